@@ -5,6 +5,7 @@ import (
 	"fmt"
 	"sort"
 	"strconv"
+	"time"
 
 	"github.com/mimiro-io/datahub/internal/jobs"
 	jobSource "github.com/mimiro-io/datahub/internal/jobs/source"
@@ -23,29 +24,24 @@ func (s *listSource) StartFullSync() {}
 func (s *listSource) EndFullSync()   {}
 func (s *listSource) ReadEntities(ctx context.Context, since jobSource.DatasetContinuation, batchSize int,
 	processEntities func([]*server.Entity, jobSource.DatasetContinuation) error) error {
+	// like DatasetSource: ONE page per call; the pipeline's keepReading loop asks for the next
 	from := int(since.AsIncrToken())
 	if batchSize <= 0 {
 		batchSize = s.n + 1
 	}
-	for {
-		to := from + batchSize
-		if to > s.n {
-			to = s.n
-		}
-		ents := make([]*server.Entity, 0, to-from)
-		for i := from; i < to; i++ {
-			e := server.NewEntity(strconv.Itoa(i), uint64(i+1))
-			ents = append(ents, e)
-		}
-		from = to
-		err := processEntities(ents, &jobSource.StringDatasetContinuation{Token: strconv.Itoa(from)})
-		if err != nil {
-			return err
-		}
-		if len(ents) == 0 {
-			return nil
-		}
+	to := from + batchSize
+	if to > s.n {
+		to = s.n
 	}
+	if from > to {
+		from = to
+	}
+	ents := make([]*server.Entity, 0, to-from)
+	for i := from; i < to; i++ {
+		e := server.NewEntity(strconv.Itoa(i), uint64(i+1))
+		ents = append(ents, e)
+	}
+	return processEntities(ents, &jobSource.StringDatasetContinuation{Token: strconv.Itoa(to)})
 }
 
 func c10Transform(mode string) func([]*server.Entity) ([]*server.Entity, error) {
@@ -61,7 +57,7 @@ func c10Transform(mode string) func([]*server.Entity) ([]*server.Entity, error) 
 				out = append(out, e)
 			case "dup":
 				out = append(out, e, e)
-			case "create":
+			case "create", "push":
 				out = append(out, e, server.NewEntity(strconv.Itoa(1000+i), 0))
 			default:
 				out = append(out, e)
@@ -88,6 +84,14 @@ func runC10Pipe(h *Hub, jobID string, n, batch, p int, mode string) (out interfa
 		}
 	}()
 	tr := &jobs.VerifTransform{P: p, F: c10Transform(mode)}
+	if mode == "push" {
+		// like a javascript transform doing entities.push(...): append to the *input* slice. If the
+		// chunk shares its backing array with the batch this overwrites the next worker's first entity.
+		tr.Pre = func(es []*server.Entity) {
+			_ = append(es, server.NewEntity("9999", 0))
+			time.Sleep(2 * time.Millisecond)
+		}
+	}
 	sink := &jobs.VerifSink{}
 	_, err := jobs.VerifPipelineSync(h.Runner, jobID, &listSource{n: n}, tr, sink, batch, false, context.Background())
 	if err != nil {
@@ -144,6 +148,14 @@ func genC10(c *Ctx) {
 	}
 	for i := 0; i < samples; i++ {
 		c.Do("c10.pipe", M{"n": c.Rng.Intn(400), "batch": 1 + c.Rng.Intn(120), "p": c.Rng.Intn(40) - 2, "mode": modes[c.Rng.Intn(4)]})
+	}
+	// transforms that push onto their input array (aliasing between chunks)
+	pushes := 120
+	if c.Thorough {
+		pushes = 1500
+	}
+	for i := 0; i < pushes; i++ {
+		c.Do("c10.pipe", M{"n": 2 + c.Rng.Intn(30), "batch": 1 + c.Rng.Intn(12), "p": 2 + c.Rng.Intn(6), "mode": "push"})
 	}
 }
 
